@@ -108,6 +108,9 @@ impl<'a> GeneratorState<'a> {
                 ExprType::A(_) => {
                     self.sasm(TAX)?;
                     self.flags = FlagsState::X;
+                    // The carry of a subtraction tells about its operands,
+                    // not about the 8 bits value kept here
+                    self.carry_flag_ok = false;
                     self.acc_in_use = false;
                     Ok(ExprType::X)
                 }
@@ -189,6 +192,7 @@ impl<'a> GeneratorState<'a> {
                         self.sasm(TAY)?;
                         self.acc_in_use = false;
                         self.flags = FlagsState::Y;
+                        self.carry_flag_ok = false;
                         Ok(ExprType::Y)
                     }
                     ExprType::X => {
